@@ -454,6 +454,16 @@ def snapshot_provenance(run, model, rule):
                                 raised = True
         if not raised:
             bad = "a snapshot whose name was already seen does not raise ValueError on every path"
+        # every return hands back the list built by the walk (an early exit would skip the conflict / identity tests)
+        loop_ids = set(id(sub) for st in it_ok[0].stmt.body for sub in ast.walk(st))
+        built = set()
+        for n in flow.cfg.nodes:
+            for call, c, a in calls_in(n):
+                if id(n.stmt) in loop_ids and isinstance(call.func, ast.Attribute) and call.func.attr == "append" and isinstance(call.func.value, ast.Name):
+                    built.add(call.func.value.id)
+        for n in flow.cfg.nodes:
+            if n.kind == "return" and n.ast is not None and not (isinstance(n.ast, ast.Name) and n.ast.id in built):
+                bad = bad or "`%s` hands back something other than the list built by the walk over inherited + own snapshots: the identity and name checks are skipped on that path (the same snapshot reached along two paths stays twice in the list)" % first_line(n.stmt)
         # identity de-duplication (diamond): skipping is allowed only for the *same object*
         for n in flow.cfg.nodes:
             if n.kind == "continue":
@@ -655,6 +665,32 @@ def decorate_always(run, model, rule):
                     must.append(("the decoration of the namespace's members", p))
     if len(must) < 2:
         raise AnalysisError("%s: the invariant merge and the loop over the namespace were not both found" % fi.qual)
+    # inside its loop the merge happens in every iteration (no `continue` that skips a list "with nothing to merge":
+    # a class must get its own -- possibly empty -- list whenever a base has one, else it shares the base's)
+    for n in fl.cfg.nodes:
+        for call, c, a in calls_in(n):
+            if fi_of_term(model, fl.term(call.func, n)) is collapse:
+                for h in fl.cfg.nodes:
+                    if h.kind == "next" and isinstance(h.stmt, ast.For) and any(sub is n.stmt for st in h.stmt.body for sub in ast.walk(st)):
+                        start = [t for k, t in h.succ if k == "T"]
+                        seen = gg.reach(start, None, {n.id}, follow_exc=False)
+                        skip = h.id in seen
+                        culprit = None
+                        if skip:
+                            cs = [x for x in fl.cfg.nodes if x.kind == "continue" and x.id in seen]
+                            culprit = cs[0] if cs else None
+                        run.check(not skip, rule, "%s:every-list" % fi.qual, "each of the invariant lists is merged in its iteration", "an iteration can skip the merge of its invariant list (`%s`): a class without entries of that kind then has no list of its own and shares -- and later extends -- the list found on its base" % (first_line(culprit.stmt) if culprit is not None else "continue"), fi.loc(culprit) if culprit is not None else fi.loc(h), None, first_line(culprit.stmt) if culprit is not None else None)
+    # the function and property passes look at ALL bases of the class, exactly as given
+    fn_f = model.func("_metaclass._decorate_namespace_function")
+    fn_p = model.func("_metaclass._decorate_namespace_property")
+    for n in fl.cfg.nodes:
+        for call, c, a in calls_in(n):
+            g = fi_of_term(model, fl.term(call.func, n))
+            if g in (fn_f, fn_p):
+                b = bind_call(g, call) or {}
+                arg = b.get(g.params[0])
+                at = strip_sites(fl.term(arg, n)) if arg is not None else None
+                run.check(at == ("param", fi.params[0]), rule, "%s:bases->%s" % (fi.qual, g.name), "the pass receives the class's own bases", "`%s` receives %s instead of the bases of the class being created: a base that is left out (a plain mixin providing the member without contracts) no longer counts, so its 'accepts every call' is lost and contracts declared on it are not inherited" % (g.name, show(at, 60) if at else "nothing"), fi.loc(n), None, first_line(n.stmt))
     for what, node in must:
         seen = gg.reach([fl.cfg.entry], None, {node.id}, follow_exc=False)
         bypass = fl.cfg.exit_return.id in seen
